@@ -1136,7 +1136,11 @@ func callBuiltin(caller *frame, callpos token.Pos, fn *ssa.Builtin, args []value
 		panic(targetPanic{args[0]})
 
 	case "recover":
-		return doRecover(caller)
+		r := doRecover(caller)
+		if ri, ok := r.(iface); !ok || ri.t != nil {
+			caller.i.panicAt = ""
+		}
+		return r
 
 	case "ssa:wrapnilchk":
 		recv := args[0]
